@@ -2,35 +2,33 @@
 use automerge::transaction::Transactable;
 use automerge::*;
 
-fn show(d: &AutoCommit, l: &ObjId, label: &str) {
-    let len = d.length(l);
-    let vals: Vec<String> = (0..len + 1).map(|i| format!("{:?}", d.get_all(l, i).unwrap().iter().map(|x| x.0.to_string()).collect::<Vec<_>>())).collect();
-    println!("{label}: length={len} get_all by index={vals:?} invariants={:?}", d.verif_check_invariants());
+fn show(ps: &[Patch]) {
+    for p in ps {
+        println!("    {:?} {:?}", p.path.iter().map(|x| x.1.clone()).collect::<Vec<_>>(), p.action);
+    }
 }
 
 fn main() {
-    for later in 0..4 {
-        let mut d = AutoCommit::new().with_actor(ActorId::from(vec![1u8]));
-        let l = d.put_object(ROOT, "l", ObjType::List).unwrap();
-        for (i, v) in ["a", "b", "c"].iter().enumerate() { d.insert(&l, i, *v).unwrap(); }
-        d.commit();
-        let h1 = d.get_heads();
-        // later changes outside the isolation heads
-        match later {
-            0 => {}
-            1 => { d.delete(&l, 1).unwrap(); }
-            2 => { d.put(&l, 1, "B").unwrap(); }
-            _ => { d.insert(&l, 1, "x").unwrap(); d.delete(&l, 0).unwrap(); }
-        }
-        d.commit();
-        d.isolate(&h1);
-        d.put(&l, 0, false).unwrap();
-        d.splice(&l, 1, 2, vec![hydrate::Value::Scalar(ScalarValue::Uint(9))]).unwrap();
-        show(&d, &l, &format!("later={later} isolated, in tx"));
-        d.commit();
-        d.integrate();
-        show(&d, &l, &format!("later={later} after integrate"));
-        let r = AutoCommit::load(&d.save()).unwrap();
-        show(&r, &l, &format!("later={later} reload"));
-    }
+    let mut d = AutoCommit::new();
+    let t = d.put_object(ROOT, "t", ObjType::Text).unwrap();
+    d.splice_text(&t, 0, 0, "ab").unwrap();
+    let b = d.split_block(&t, 1).unwrap();
+    d.put(&b, "type", "p").unwrap();
+    d.commit();
+    let h = d.get_heads();
+    println!("diff([], current heads):");
+    show(&d.diff(&[], &h));
+    d.put(ROOT, "later", 1).unwrap();
+    d.commit();
+    println!("diff([], h) with h historical:");
+    show(&d.diff(&[], &h));
+    let h3 = d.get_heads();
+    println!("diff(h3, h) backwards:");
+    show(&d.diff(&h3, &h));
+    println!("Automerge::current_state():");
+    show(&d.document().current_state());
+    let mut pl = PatchLog::active();
+    let am = Automerge::load_with_options(&d.save(), LoadOptions::new().patch_log(&mut pl)).unwrap();
+    println!("load_with_options(patch_log):");
+    show(&am.make_patches(&mut pl));
 }
